@@ -46,3 +46,11 @@ CORPUS += [
     M("breeze-off-zero", D, "    class BreezeMode(MideaIntEnum):\n        OFF = 1", "    class BreezeMode(MideaIntEnum):\n        OFF = 0"),
     M("breeze-members-swapped", D, "        BREEZE_AWAY = 2\n        BREEZE_MILD = 3", "        BREEZE_AWAY = 3\n        BREEZE_MILD = 2"),
 ]
+# round 6 (C16.a advertised ids, C16.e read-back)
+CORPUS += [
+    M("readback-falsy-dropped", D, "            if (value := res.get_property(PropertyId.SELF_CLEAN)) is not None:", "            if (value := res.get_property(PropertyId.SELF_CLEAN)):"),
+    M("readback-wrong-id", D, "            if (value := res.get_property(PropertyId.SELF_CLEAN)) is not None:", "            if (value := res.get_property(PropertyId.BUZZER)) is not None:"),
+    M("capability-names-crossed", C, '            CapabilityId.BREEZE_AWAY: reader("breeze_away", get_value(1)),\n            CapabilityId.BREEZE_CONTROL: reader("breeze_control", get_value(1)),',
+      '            CapabilityId.BREEZE_AWAY: reader("breeze_control", get_value(1)),\n            CapabilityId.BREEZE_CONTROL: reader("breeze_away", get_value(1)),'),
+    M("n-readback-two-steps", D, "            if (value := res.get_property(PropertyId.SELF_CLEAN)) is not None:", "            value = res.get_property(PropertyId.SELF_CLEAN)\n            if value is not None:", "S"),
+]
